@@ -74,6 +74,11 @@ def _step(kinds, modes):
             "inverse": st.booleans(),
             "setFuel": st.booleans(),
             "fresh": st.booleans(),
+            # before the change: swap the k-th pair of same-kind blocks the way fuel handling does (None = no swap)
+            "swap": st.sampled_from([None, None, None, 0, 1, 2, 3, 5, 8]),
+            # when the column-stacking model predicts a negative block height for the drawn growth, apply it anyway
+            # and expect armi's refusal (ArithmeticError)
+            "probe": st.sampled_from([False, False, True]),
         }
     )
 
@@ -205,6 +210,7 @@ class Run:
         self.applied = 0
         self.diff_growth = False
         self.shape_hits = 0
+        self.swaps = 0
 
     # ---- components ------------------------------------------------------------------------
     def comp(self, i, name):
@@ -450,11 +456,66 @@ class Run:
                 out.check(_nd_scaled({k: float(v) for k, v in c.getNumberDensities().items()}, old["nd"], 1.0),
                           "c12/inverse/density-not-restored", lambda: "%s: block %d %s number densities differ from before" % (where, i, c.name))
 
+    # ---- block reordering between changes ----------------------------------------------------------
+    def swap(self, k):
+        """Swap the k-th pair of same-kind blocks below the dummy with Assembly.remove/insert, then
+        reestablishBlockOrder + calculateZCoords (what fuel handling does); the model follows."""
+        a, nb = self.a, self.model.nb
+        pairs = [(i, j) for i in range(nb) for j in range(i + 1, nb) if self.blocks[i]["kind"] == self.blocks[j]["kind"]]
+        if not pairs:
+            return
+        i, j = pairs[k % len(pairs)]
+        bi, bj = a[i], a[j]
+        a.remove(bj)
+        a.remove(bi)
+        a.insert(i, bj)
+        a.insert(j, bi)
+        a.reestablishBlockOrder()
+        a.calculateZCoords()
+        self.blocks[i], self.blocks[j] = self.blocks[j], self.blocks[i]
+        self.model = Model(self.blocks)
+        if a[i] is not bj or a[j] is not bi or len(a) != nb + 1:
+            raise AssertionError("C12 harness: block swap did not produce the intended order")
+        self.out.label("swap:adjacent" if j == i + 1 else "swap:distant")
+        self.swaps += 1
+
+    # ---- armi's refusal of a change that would give a block a negative height ------------------------
+    def probe_refusal(self, step, listed, newh):
+        out, a = self.out, self.a
+        out.label("probe:negative-height-predicted")
+        comps = [self.comp(i, n) for (i, n) in sorted(listed)]
+        fracs = [listed[k] for k in sorted(listed)]
+        ch = self.get_changer(step)
+        try:
+            ch.performPrescribedAxialExpansion(a, comps, fracs, setFuel=step["setFuel"])
+        except ArithmeticError:
+            # documented refusal (_checkBlockHeight); the assembly is left half-expanded, the history ends here
+            out.label("probe:refused")
+            out.rejected = True
+            return
+        self.applied += 1
+        where = "step %d (prescribed %s, accepted although a negative height was predicted)" % (self.applied, step["mode"])
+        bad = [(i, float(b.p.height)) for i, b in enumerate(a) if not float(b.p.height) > 0.0 or not float(b.getHeight()) > 0.0]
+        if out.check(not bad, "c12/mesh/nonpositive-height-accepted",
+                     lambda: "%s: blocks with non-positive height %s; heights now %s; model (column stacking) %s"
+                     % (where, bad, [float(b.p.height) for b in a], newh)):
+            out.fail("c12/refusal/predicted-negative-height-not-observed",
+                     "%s: model heights %s, observed %s" % (where, newh, [float(b.p.height) for b in a]))
+
     # ---- one step of the history ---------------------------------------------------------------
     def step(self, step):
-        out, m = self.out, self.model
+        out = self.out
+        if step.get("swap") is not None:
+            self.swap(step["swap"])
+        m = self.model
         if step["kind"] == "prescribed":
             listed = self.prescribed_growth(step)
+            if step.get("probe"):
+                newh, _dev = m.predict(self.effective(listed), self.heights())
+                newh = newh + [self.L0 - sum(newh)]
+                if min(newh) < -1e-9 * self.L0:
+                    self.probe_refusal(step, listed, newh)
+                    return False
             if self.exclude:
                 eff = self.effective(listed)
                 if m.repair(eff):
@@ -520,7 +581,18 @@ class Run:
 
 
 def _execute(case, exclude):
-    run = Run(case, exclude)
+    try:
+        run = Run(case, exclude)
+    except ArithmeticError:
+        # cold-input blueprints are expanded from Tinput to Thot during construction (expandColdDimsToHot, not part of
+        # this property); with a short block on a tall mixed-material column armi refuses the blueprint with its
+        # documented negative-height error (a consequence of the known finding's stacking rule)
+        if case["asm"]["build"] != "bp-cold":
+            raise
+        out = Out()
+        out.rejected = True
+        out.label("build:bp-cold", "build:refused-negative-height")
+        return out
     out = run.out
     spec = case["asm"]
     out.label("build:" + spec["build"], "blocks:%d" % (run.model.nb + 1))
@@ -553,7 +625,11 @@ PARTS = [
               "on top; fuel, bond, clad, wire, duct, coolant; realistic or single materials; automatic or explicit target components; "
               "built from component objects or from a blueprint, hot or cold input heights) x histories of 1-6 prescribed "
               "(per-component, per-block, uniform, one-component-kind) or thermal-field changes, each optionally followed by its "
-              "inverse; the known shape is excluded by construction. Oracle after every application: total height, contiguity, "
+              "inverse, optionally preceded by a swap of two same-kind blocks (remove/insert + reestablishBlockOrder + "
+              "calculateZCoords) with the changer object reused or fresh; short (1-3 cm) blocks above tall columns and small dummy "
+              "blocks are over-weighted and a growth for which the column-stacking model predicts a negative block height is "
+              "applied as a refusal probe (armi must raise its ArithmeticError, counted as rejected, or leave every height > 0); "
+              "the known shape is excluded by construction. Oracle after every application: total height, contiguity, "
               "positive heights, grid bounds, block top on its target, linked components stacked, component height = growth x old "
               "height, target mass conserved, all solids conserved and densities / growth under uniform growth, inverse restores. "
               "Non-trivial = at least two applied changes and two blocks whose targets grew differently"),
